@@ -248,6 +248,15 @@ static inline void %(s)s_push_back(%(s)s *v, %(T)s *x) { __CPROVER_assert(v->n <
 static %(T)s *%(s)s_elem(%(s)s *v, unsigned long i) { unsigned long k; __CPROVER_assert(i < %(CAP)d, "vector index inside the bounded model's storage"); for (k = 0; k + 1 < %(CAP)d; k++) if (k == i) return &v->b[k]; return &v->b[%(CAP)d - 1]; }
 static inline %(T)s *%(s)s_at(%(s)s *v, unsigned long i) { if (i >= v->n) { __verif_exc = %(OOR)s; return &v->b[0]; } return %(s)s_elem(v, i); }
 static inline void %(s)s_resize(%(s)s *v, unsigned long n) { __CPROVER_assert(n <= v->n, "BOUND growing resize is not modelled for the bounded vector"); v->n = n; }
+/* erase [first, last): the later elements move down in order (elements are copied by value) */
+static %(T)s *%(s)s_erase_range(%(s)s *v, %(T)s *first, %(T)s *last)
+{
+  unsigned long a = (unsigned long)(first - v->b), e = (unsigned long)(last - v->b), k;
+  __CPROVER_assert(a <= e && e <= v->n, "erase range lies inside the vector");
+  for (k = 0; k < %(CAP)d; k++) if (k >= e && k < v->n) v->b[k - (e - a)] = v->b[k];
+  v->n -= (e - a);
+  return first;
+}
 """ % dict(s=s, T=T, CAP=CAP, OOR=OOR)
         tr.opts.setdefault("stub_may_throw", [])
         tr.opts["stub_may_throw"] = list(tr.opts["stub_may_throw"]) + [n for n in (s + "_at", s + "_resize") if n not in tr.opts["stub_may_throw"]]
@@ -371,6 +380,10 @@ static inline void %(s)s_dtor(%(s)s *v) { if (v->b) free(v->b); v->b = 0; v->n =
         tr = self.tr
         q = info.get("qname", "")
         ety = tr.ety(ce)
+        if q.startswith("__gnu_cxx::__normal_iterator<") and len(args) == 1:
+            # iterator copy / iterator -> const_iterator conversion: iterators are pointers
+            tr.rule("iterator-as-pointer")
+            return [X("expr", X("assign", "=", deref(ptr), X("cast", tr.ctype(tr.lower(ety)), tr.rv(args[0]))))]
         if ety.kind != "rec":
             return None
         canon = ety.name
@@ -684,6 +697,11 @@ static inline void verif_lock_guard_dtor(std_lock_guard_std_mutex *g) { g->m->g_
             tracked = self.is_tracked(canon)
             if canon.startswith("std::vector<") and tr.opts.get("bounded_vec"):
                 PT = Ty("ptr", to=T)
+                if m == "erase" and len(args) == 2:
+                    return X("call", s + "_erase_range", [addr(o), tr.rv(args[0]), tr.rv(args[1])], ty=PT)
+                if m == "erase" and len(args) == 1:
+                    t1 = tr.newtmp(PT)
+                    return X("comma", X("assign", "=", t1, tr.rv(args[0])), X("call", s + "_erase_range", [addr(o), t1, X("bin", "+", t1, X("lit", "1"), ty=PT)], ty=PT), ty=PT)
                 if m == "operator[]":
                     return deref(X("call", s + "_elem", [addr(o), tr.rv(args[0])], ty=PT))
                 if m == "back":
